@@ -54,7 +54,8 @@ Step == /\ ~done
              IF Mode = "walk" THEN [t |-> t, visit |-> Preorder(t), events |-> Events(t)]
              ELSE IF Mode = "xform" THEN [t |-> t, value |-> Expand(t),
                                           xf |-> [i \in 1..Len(CbSeq) |-> [cbs |-> CbSeq[i], res |-> BottomUp(t, CbSeq[i])[1],
-                                                                            log |-> BottomUp(t, CbSeq[i])[2]]]]
+                                                                            log |-> BottomUp(t, CbSeq[i])[2],
+                                                                            origins |-> BottomUpO(t, CbSeq[i])]]]
              ELSE [t |-> t, value |-> Expand(t)]))
 
 Next == Step
@@ -72,4 +73,12 @@ PreorderOnce ==
     done => LET p == Preorder(t) IN Cardinality({p[i] : i \in 1..Len(p)}) = Len(p)
 IdentityTransform ==
     done => BottomUp(t, <<"id">>)[1] = Expand(t)
+\* the origin-tracking rewrite computes the same values
+RECURSIVE DropO(_)
+DropO(v) == CASE v[1] = "obj" -> <<"obj", v[2], [i \in 1..Len(v[3]) |-> DropO(v[3][i])]>>
+              [] v[1] \in {"list", "tuple"} -> <<v[1], [i \in 1..Len(v[2]) |-> DropO(v[2][i])]>>
+              [] v[1] = "dict" -> <<"dict", [i \in 1..Len(v[2]) |-> <<v[2][i][1], DropO(v[2][i][2])>>]>>
+              [] OTHER -> v
+OriginsConsistent ==
+    done => \A i \in 1..Len(CbSeq) : DropO(BottomUpO(t, CbSeq[i])) = BottomUp(t, CbSeq[i])[1]
 =============================================================================
